@@ -165,6 +165,16 @@ def markers(path):
     out = {s: None for s in STEPS}
     con = sqlseam.plain_connect(path)
     try:
+        return _markers(con, out)
+    except (sqlite3.Error, TypeError) as exc:
+        # unreadable / malformed file: no marker can be vouched for
+        return {s: None for s in STEPS} | {"_error": "%s: %s" % (type(exc).__name__, exc)}
+    finally:
+        con.close()
+
+
+def _markers(con, out):
+    if True:  # pylint: disable=using-constant-test
         names = {r[0] for r in con.execute("SELECT name FROM sqlite_master WHERE type='table'")}
 
         def one(sql):
@@ -199,6 +209,4 @@ def markers(path):
             b = one("SELECT count(*) FROM rising_interval_zeta")[0]
             if a or b:
                 out["rise"] = {"intervals": a, "zeta": b}
-    finally:
-        con.close()
     return out
